@@ -249,6 +249,14 @@ func GenRule(ch *core.Chooser, k int, hosts []string, prev []string) string {
 		pre := []string{"||", "@@||"}[ch.Intn("rule.allow", 2)]
 		return pre + h + "^$dnstype=" + pick(ch, "rule.dnstype", dnstypeRuleVals)
 	case KDenyAllow:
+		// mostly anchored to a host; sometimes a pattern that an IP-literal
+		// or arbitrary host name reaches too (the $denyallow IP exception)
+		switch ch.Intn("rule.daform", 6) {
+		case 0:
+			return "*$denyallow=" + pick(ch, "rule.host2", hosts) + "|" + pick(ch, "rule.host3", hosts)
+		case 1:
+			return "||192.0.2.55^$denyallow=" + pick(ch, "rule.host2", hosts)
+		}
 		return "||" + h + "^$denyallow=" + pick(ch, "rule.host2", hosts)
 	case KRewrite:
 		imp := []string{"", ",important"}[ch.Intn("rule.imp", 4)/3]
